@@ -1,9 +1,73 @@
 import BbRe.Model.FilePool
-namespace BbRe.Properties.C15
-open BbRe.FilePool
+import BbRe.Lemmas.FilePoolState
+/-!
+# C15 (file half) — independent sparse files, sectors conserved
 
-/-- A fresh pool has nothing allocated and no files. -/
-theorem init_empty (c : Cfg) : (init c).allocd = [] ∧ (init c).files = [] ∧ (init c).dfree = false :=
-  ⟨rfl, rfl, rfl⟩
+Property theorems about `Model/FilePool.lean`, the transcription of
+`pkg/filesystem/pool/block_device_backed_file_pool.go`.  A history is a list of
+`(Op, Oracle)`: the operation together with the environment's answers during
+that call (allocator answers checked against the interface contract of
+`sector_allocator.go`, and the fault plan for device reads/writes, hole-source
+reads/seeks/Truncate/Close).  All theorems quantify over every sector size
+`≥ 1`, every device size, every number of files and every such history.
+Helper lemmas: `BbRe/Lemmas/FilePool*.lean`.
+-/
+namespace BbRe.Properties.C15
+open BbRe.FilePool BbRe.Lemmas.FilePool
+
+/-- **`sector_conservation`**: in every reachable state — after any history,
+including operations that failed at any device write, hole-source read,
+allocation, hole-source `Truncate`/`Close` — the allocated set is exactly the
+union of the files' non-zero sector entries, no sector is allocated twice, and
+no sector was ever freed while not allocated. -/
+theorem sector_conservation (c : Cfg) (hss : 1 ≤ c.ss) (ops : List (Op × Oracle)) :
+    let st := run (init c) ops
+    (∀ s, s ∈ st.allocd ↔ ∃ (i : Nat) (f : File), st.files[i]? = some f ∧ s ∈ f.sectors ∧ s ≠ 0) ∧
+      st.allocd.Nodup ∧ st.dfree = false ∧ ∀ s ∈ st.allocd, 1 ≤ s ∧ s ≤ c.nsec := by
+  intro st
+  have h : Inv st := inv_run (inv_init c hss) ops
+  have hcfg : st.cfg = c := by
+    have : ∀ (ops : List (Op × Oracle)) (s : State), (run s ops).cfg = s.cfg := by
+      intro ops
+      induction ops with
+      | nil => intro s; rfl
+      | cons x xs ih =>
+        intro s
+        show (run (step s x.1 x.2).1 xs).cfg = s.cfg
+        rw [ih]
+        unfold step
+        cases x.1 <;> dsimp only <;> (try split) <;> (try rw [finish_fst]) <;> rfl
+    exact this ops (init c)
+  refine ⟨fun s => ⟨fun hs => ?_, ?_⟩, h.allocNodup, h.noDoubleFree, fun s hs => hcfg ▸ h.allocRange s hs⟩
+  · obtain ⟨i, f, hf, hsf⟩ := h.noLeak s hs
+    exact ⟨i, f, hf, hsf, by have := h.allocRange s hs; omega⟩
+  · rintro ⟨i, f, hf, hsf, hs0⟩
+    exact h.owned i f hf s hsf hs0
+
+/-- After closing all files nothing is allocated: the full capacity is available again. -/
+theorem all_closed_nothing_allocated (c : Cfg) (hss : 1 ≤ c.ss) (ops : List (Op × Oracle))
+    (hclosed : ∀ f ∈ (run (init c) ops).files, f.closed = true) : (run (init c) ops).allocd = [] := by
+  have h : Inv (run (init c) ops) := inv_run (inv_init c hss) ops
+  cases hA : (run (init c) ops).allocd with
+  | nil => rfl
+  | cons s rest =>
+    exfalso
+    obtain ⟨i, f, hf, hsf⟩ := h.noLeak s (by rw [hA]; exact List.mem_cons_self)
+    have hmem : f ∈ (run (init c) ops).files := List.mem_of_getElem? hf
+    rw [h.closedEmpty i f hf (hclosed f hmem)] at hsf
+    cases hsf
+
+/-- **`isolation`, sector lists** (`Inv.disjoint`): in every reachable state the
+non-zero entries of all files' sector lists are pairwise distinct — within a
+file and between files — and all of them are allocated. -/
+theorem isolation_sectors (c : Cfg) (hss : 1 ≤ c.ss) (ops : List (Op × Oracle)) :
+    let st := run (init c) ops
+    (∀ (i j : Nat) (f g : File), i ≠ j → st.files[i]? = some f → st.files[j]? = some g →
+        ∀ s, s ≠ 0 → s ∈ f.sectors → s ∉ g.sectors) ∧
+      (∀ (i : Nat) (f : File), st.files[i]? = some f → (f.sectors.filter (· ≠ 0)).Nodup) ∧
+      (∀ (i : Nat) (f : File), st.files[i]? = some f → ∀ s ∈ f.sectors, s ≠ 0 → s ∈ st.allocd) := by
+  intro st
+  have h : Inv st := inv_run (inv_init c hss) ops
+  exact ⟨h.disjoint, h.nodup, h.owned⟩
 
 end BbRe.Properties.C15
